@@ -188,6 +188,21 @@ def nested_workers():
     return out
 
 
+def heap_family(tier):
+    top = 10 if tier == "thorough" else 8
+    for kind in ("buf2", "buf3"):
+        for n in range(1, top + 1):
+            for ops in itertools.product("sr", repeat=n):
+                yield ((kind,), (tuple((o, 0) for o in ops),), "heap")
+        for k in range(1, 7):
+            for pre in range(0, 3):
+                # main first sends `pre` values itself, then consumes everything while a producer sends k more
+                main = tuple(("s", 0) for _ in range(pre)) + tuple(("r", 0) for _ in range(pre + k))
+                yield ((kind,), (main, tuple(("s", 0) for _ in range(k))), "heap")
+    for k in range(1, 5):
+        yield (("sync",), (tuple(("r", 0) for _ in range(k)), tuple(("s", 0) for _ in range(k))), "heap")
+
+
 class Net(Check):
     level = "model_checking"
     assumptions = ["fibers switch only inside channel operations, so a line printed right after an operation is atomic with its completion and stdout is the VM's linearisation",
@@ -199,7 +214,8 @@ class Net(Check):
         self.rule = ("all networks (channels, launched fibers, total operations): quick (1,1-4,<=5) (2,1-3,<=4); thorough (1,1-3,<=7) (1,4,<=5) (2,1,<=6) (2,2,<=5) (2,3,<=4) ("
                      "symmetric fibers merged); structured families beyond that bound (producer/consumer pipelines with 0-4 sends / 0-4 receives joined through a done channel over capacities 0-3, fan-in, fan-out, ping-pong, 1-2 producers x 1-3 consumers all joined by main, request/reply servers with 1-3 rounds (as a fiber that may launch a helper first, with main's sends and receives in every order; as main itself with the collector started directly or through a chain of launching fibers); up to 14 operations); plus the nested family (one operation inside a native iterator callback) "
                      "for T<=3; plus fibers launched by fibers: every placement of every launch for (1,1-3,<=3) (2,2,<=2) (thorough <=4/3) and the nested-workers family (workers that launch a helper and share a data channel, joined through go/done channels, 3 channels, 3-4 fibers, up to 9 operations); per network: model explored over all schedules, VM trace replayed against it. non-trivial = network whose "
-                     "model has >= 2 fibers interacting on a channel (some receive or blocked send)")
+                     "model has >= 2 fibers interacting on a channel (some receive or blocked send); heap-payload family (C07): buffered channels of capacity 2/3 driven around their ring - every send/receive "
+                     "sequence of main alone up to 8 (10 thorough) operations, a producer with main as consumer, a synchronous pair - with fresh lists as values and a forced full collection after every operation under the poisoning allocator")
 
     def gen(self, tier):
         if tier == "thorough":
@@ -217,6 +233,10 @@ class Net(Check):
             yield spec
         for spec in nested_workers():
             yield spec
+        # what is delivered must not depend on the collector: buffered channels driven around their ring (every send/receive sequence of main
+        # alone up to 8 (10 thorough) operations, and a producer fiber with main as consumer), heap payloads, a full collection after every operation
+        for spec in heap_family(tier):
+            yield spec
         # an operation executed inside a callback run by a native (nested interpreter loop shares the scheduler)
         for nch, nf in ((1, 1), (1, 2), (2, 1)):
             for kinds, fibers in N.networks(nch, nf, 3):
@@ -232,7 +252,11 @@ class Net(Check):
         kinds, fibers, wrap = spec
         OP = {"s": 0, "r": 1, "c": 2, "l": 3}
         case = {"cmd": "net", "kinds": [{"sync": 0, "buf1": 1, "buf2": 2, "buf3": 3}[k] for k in kinds],
-                "fibers": [[[OP[o], c] for o, c in s] for s in fibers], "wrap": list(wrap) if wrap else None, "step_limit": 300000}
+                "fibers": [[[OP[o], c] for o, c in s] for s in fibers], "wrap": list(wrap) if (wrap and wrap != "heap") else None, "step_limit": 300000}
+        if wrap == "heap":
+            # fresh heap payloads only the channel refers to + a forced full collection after every operation, freed memory poisoned
+            case["heap"] = True
+            case["alloc"] = "poison"
         return [case], None
 
     def judge(self, spec, ctx, rs):
@@ -259,7 +283,8 @@ class Net(Check):
         verdict, detail = nm["verdict"], nm["detail"]
         if not verdict:
             return Verdict(True, interacting, "ok:%s" % cls, extra=extra)
-        is_c07 = verdict == "safety"
+        # (in the heap-payload family a crash is the delivered value being read after it was freed: C07's business, not a scheduling matter)
+        is_c07 = verdict == "safety" or (wrap == "heap" and verdict == "crash")
         if (self.id == "C07") != is_c07:
             return Verdict(True, interacting, "other:%s" % verdict, extra=extra)
         lines = [l for l in r.get("out", "").split("\n") if l]
@@ -283,7 +308,7 @@ class Net(Check):
                 taken_later = any(l.endswith(" r v%d_%d" % (f, i)) for l in lines[lines.index("%d %d s" % (f, i)) + 1:]) if ("%d %d s" % (f, i)) in lines else False
                 if op == "s" and kinds[c] == "sync" and taken_later and cls == "ok":
                     v.finding = "KF-C07-sync-sender-resumed-early"
-        if verdict == "crash" and wrap is not None and cls == "panic" and "Internal Error" in (r.get("panic") or ""):
+        if verdict == "crash" and wrap is not None and wrap != "heap" and cls == "panic" and "Internal Error" in (r.get("panic") or ""):
             v.finding = "KF-C08-nested-block"
         return v
 
